@@ -542,6 +542,36 @@ def gen_kw_cases(tier, seed):
         yield (d, paths)
 
 
+# ---- collector expressions whose operands select scalars (C15: "collectors limited to operands selecting scalars") ----
+SC_OPERANDS = ["a", "b", "c", "*", "**", "[0]", "[1]", "[-1]", "x.a", "x.*", "z[0]", "z.*", "[.>1]", "[.=~/./]",
+               "**[.^a]", "z[max()]", "w", "nope"]
+SC_DOCS = ["{a: 1, b: 2, c: a}", "[1, 2, 1, null]", "{x: {a: 1, b: 1}, z: [3, 1, 2], w: null, a: 1}", "{a: 1}",
+           "[a]", "{}", "[]", "{a: null, b: '', c: 1.5}", "[a, b, a]", "{z: [1, 1], x: {a: 1}, b: true}"]
+SC_TAILS = ["", "[0]", "[-1]", "[0:1]", "[max()]", "[!min()]", "[unique()]", "[distinct()]", "[.=1]", "[parent()]",
+            "[name()]", "[has_child(a)]", "*"]
+
+
+def gen_scalar_collector_cases(tier, seed):
+    thorough = tier == "thorough"
+    rng = random.Random(seed * 31 + 5)
+    paths = []
+    for x in SC_OPERANDS:
+        for t in SC_TAILS:
+            paths.append("(%s)%s" % (x, t))
+        for op in "+-&":
+            for y in SC_OPERANDS:
+                paths.append("(%s)%s(%s)" % (x, op, y))
+    for _ in range(1500 if thorough else 300):
+        n = rng.randint(2, 4)
+        e = "(%s)" % rng.choice(SC_OPERANDS)
+        for _ in range(n - 1):
+            e += "%s(%s)" % (rng.choice("+-&"), rng.choice(SC_OPERANDS))
+        paths.append(e + rng.choice(SC_TAILS))
+    for d in SC_DOCS:
+        for part in chunk_list(paths if thorough else rng.sample(paths, 700), 700):
+            yield (d, part)
+
+
 def random_kw_doc(rng):
     """collections for the keyword handlers: plain lists over mixed pools, AoH / hash-of-hashes with the
     attribute present / absent / null / a container"""
